@@ -393,7 +393,7 @@ def mergeLp (s : St) (l : List (Nat × Nat)) (t : LkTok) : Option (St × Out) :=
   pure (s2, { wOut := (n, sx), newW := n })
 
 /-- `mergeWrappedFarmTokens` through farm `farm`; `mf` merged farm token, `t` merged locked token -/
-def mergeFarm (s : St) (farm : Nat) (l : List (Nat × Nat)) (mf : Nat × Nat) (t : LkTok)
+def mergeFarmCore (s : St) (farm : Nat) (l : List (Nat × Nat)) (mf : Nat × Nat) (t : LkTok)
     (stray : List LkTok) : Option (St × Out) := do
   req (2 ≤ l.length)
   let (f0, _) ← l.head?
@@ -408,6 +408,14 @@ def mergeFarm (s : St) (farm : Nat) (l : List (Nat × Nat)) (mf : Nat × Nat) (t
       let (s2, nw) := newW (learn s1 t) sp t.k t.amt false
       let (s3, n) := newF s2 r0.farm mf.1 mf.2 .wlp nw sp
       pure (addStray s3 stray, { fOut := (n, mf.2), newW := nw, newF := n })
+
+/-- `mergeWrappedFarmTokens`: the boosted rewards `rew` the farm pays out while merging are
+    forwarded to the caller (they used to stay in the proxy: finding F5, repaired in /repo);
+    whatever the proxy does not forward is `stray`. -/
+def mergeFarm (s : St) (farm : Nat) (l : List (Nat × Nat)) (mf : Nat × Nat) (t : LkTok)
+    (rew : Option LkTok) (stray : List LkTok) : Option (St × Out) := do
+  let (s', o) ← mergeFarmCore (learnOpt s rew) farm l mf t stray
+  pure (s', { o with rew := rewOf rew })
 
 /-- `increaseProxyPairTokenEnergy`: `t` is the factory's extended locked token -/
 def incLp (s : St) (w x : Nat) (t : LkTok) : Option (St × Out) := do
@@ -441,7 +449,8 @@ inductive Op
   | exitFarm (farm f x farming : Nat) (rew : Option LkTok)
   | claim (farm f x : Nat) (ft : Nat × Nat) (rew : Option LkTok)
   | mergeLp (l : List (Nat × Nat)) (t : LkTok)
-  | mergeFarm (farm : Nat) (l : List (Nat × Nat)) (mf : Nat × Nat) (t : LkTok) (stray : List LkTok)
+  | mergeFarm (farm : Nat) (l : List (Nat × Nat)) (mf : Nat × Nat) (t : LkTok)
+      (rew : Option LkTok) (stray : List LkTok)
   | incLp (w x : Nat) (t : LkTok)
   | incFarm (f x : Nat) (t : LkTok)
 
@@ -457,7 +466,7 @@ def step (s : St) : Op → Option (St × Out)
   | .exitFarm farm f x farming rew => exitFarm s farm f x farming rew
   | .claim farm f x ft rew => claim s farm f x ft rew
   | .mergeLp l t => mergeLp s l t
-  | .mergeFarm farm l mf t stray => mergeFarm s farm l mf t stray
+  | .mergeFarm farm l mf t rew stray => mergeFarm s farm l mf t rew stray
   | .incLp w x t => incLp s w x t
   | .incFarm f x t => incFarm s f x t
 
